@@ -240,17 +240,20 @@ def correspondence(ctx):
 def search(ctx):
     found = []
     n = 0
-    for case in cases(ctx):
+    nw = 0
+    for ci, case in enumerate(cases(ctx)):
         for stack in ("Client", "PooledClient", "HashClient"):
-            if stack != "Client" and (case[2] or n % 3):
-                n += 1
-                continue            # script positions are placed for Client; the wrappers get the reply faults and segmentations
+            # script positions are placed for Client; the wrappers get the reply faults and segmentations (every third case; every
+            # raw_command case, whose end token is one more argument a wrapper has to hand on)
+            if stack != "Client" and (case[2] or (ci % 3 and case[1][3][0] != 16)):
+                continue
             n += 1
+            nw += stack != "Client"
             why = judge(stack, case)
             if why:
                 found.append({"clause": why, "input": {"class": stack, "cfg": repr(case[0]), "ops": repr(case[1]), "script": repr(case[2]), "choices": repr(case[3])[:100],
                                                         "reply_fault": (case[4], case[5])}, "size": len(case[2]) + len(case[3]), "case": repr((stack, case))})
-    ctx.search_summary = {"runs_with_ownership_tags": n}
+    ctx.search_summary = {"runs_with_ownership_tags": n, "of_which_on_PooledClient_or_HashClient": nw}
     found.sort(key=lambda v: v["size"])
     return found[:1]
 
